@@ -204,48 +204,6 @@ theorem has_facebook_comments_spec (url : Str) (rel : Bool) :
 
 /-! ## round trip -/
 
-/-- the records for which the round trip is proved, shape by shape (all hypotheses are
-decidable and spelled out in `Lemmas/FacebookShapes.lean`):
-
-* a field that ends up in the *path* of the url is `segOk`: not empty, without `/ ? # ;` and
-  white space, not `.` / `..`; it must not start with `watch` (nor, for a handle, with
-  `people`, nor end with `.php`), must not be a route word that an earlier route of the parser
-  tests (`videos`, `photos`, `groups` where relevant); an album id must not contain `a.`;
-* a field that ends up in the *query* is `qvalOk`: not empty, without `& # + %`, TAB, CR, LF;
-* ids and handles are told apart by `is_facebook_id`, as the parser does;
-* only the field combinations the parser produces (`Shaped`). -/
-def reparsable : Parsed → Bool
-  | .user id h => h.isNone && qvalOk id
-  | .handle h => handleOk h
-  | .group id h =>
-    (match id, h with
-     | some g, none => groupOk g && is_facebook_id g
-     | none, some g => groupOk g && !is_facebook_id g
-     | _, _ => false)
-  | .post id pid ph gid gh =>
-    (match pid, ph, gid, gh with
-     | some p, none, none, none => qvalOk p && qvalOk id
-     | none, some x, none, none => postHandleOk x id
-     | none, none, some g, none => postGroupOk g id && is_facebook_id g
-     | none, none, none, some g => postGroupOk g id && !is_facebook_id g
-     | _, _, _, _ => false)
-  | .video id pid =>
-    (match pid with
-     | none => qvalOk id
-     | some p => videoParentOk p id)
-  | .photo id gid pid ph aid =>
-    (match pid, ph with
-     | none, none => photoQueryOk id gid aid
-     | some p, none =>
-       (match gid, aid with
-        | none, some a => photoPathOk p a id && is_facebook_id p
-        | _, _ => false)
-     | none, some p =>
-       (match gid, aid with
-        | none, some a => photoPathOk p a id && !is_facebook_id p
-        | _, _ => false)
-     | some _, some _ => false)
-
 /-- the full statement of the round trip: every record the parser returns has a canonical url
 that parses to the same record -/
 def FullReparse : Prop :=
